@@ -317,6 +317,9 @@ fn e2_case(p: &Point, id: &str) -> String {
                 let item = p.item(order).replace("trait TheTrait", "trait $t");
                 let attr_t = if p.target == "fn" { attr.replacen("TheTrait", "$t", 1) } else { attr.clone() };
                 s.push_str(&format!("{fb}macro_rules! __mk_item {{ ($t:ident) => {{\n#[{mac}({attr_t})]\n{item}\n}} }}\n__mk_item!(TheTrait);\n{probes}"));
+            } else if order % 4 == 0 && (p.target == "fn" || p.target == "trait") {
+                // ... or the whole item comes from the caller (`$i:item`) and the attribute is written in the macro body
+                s.push_str(&format!("{fb}macro_rules! __mk_item {{ ($i:item) => {{\n#[{mac}({attr})]\n$i\n}} }}\n__mk_item! {{ {} }}\n{probes}", p.item(order)));
             } else {
                 s.push_str(&format!("{fb}#[{mac}({attr})]\n{}\n{probes}", p.item(order)));
             }
